@@ -1,8 +1,173 @@
-(* C01 - property theorems only; proofs live in Codec/PacketProofs.v *)
-From VT Require Import Codec.Packet Codec.SpecCodec Codec.PacketProofs.
+(* C01 - property theorems only; proofs live in Base/PyStrProofs.v, Codec/JsonProofs.v,
+   Codec/PacketProofs.v, Codec/SpecProofs.v, Check/C01CheckProofs.v *)
+From VT Require Import Base.PyStrProofs Codec.JsonProofs Codec.PacketProofs Codec.SpecProofs.
+From VT Require Import Codec.Packet Codec.SpecCodec Check.C01Check Check.C01CheckProofs.
+
+(* wire conformance: the encoder IS the specification-derived encoder, on every packet *)
+Theorem C01_conformance : forall p, encode p = spec_encode p.
+Proof. exact conformance. Qed.
+Print Assumptions C01_conformance.
+
+Theorem C01_deconstruct_spec : forall v acc,
+  decon v acc = (subst v (List.length acc), acc ++ leaves v).
+Proof. exact decon_spec. Qed.
+Print Assumptions C01_deconstruct_spec.
 
 Theorem C01_binary_only_event_ack : forall t data ns id,
   has_bytes data = true -> (t <> EVENT)%Z -> (t <> ACK)%Z ->
   ctor true t data ns id None = Err ValueError.
 Proof. exact binary_only_event_ack. Qed.
 Print Assumptions C01_binary_only_event_ack.
+
+(* str(n) / int(s) / isdigit() on the decimal text of any natural number *)
+Theorem C01_decimal_roundtrip : forall n,
+  py_int (str_of_N n) = Ok n /\ isdigit_str (str_of_N n) = true /\
+  forallb adigit (str_of_N n) = true /\ str_of_N n <> [].
+Proof. exact decimal_roundtrip. Qed.
+Print Assumptions C01_decimal_roundtrip.
+
+Theorem C01_decimal_negative_dash : forall z, (z < 0)%Z -> exists r, str_of_Z z = 45%N :: r.
+Proof. exact str_of_Z_neg_first. Qed.
+Print Assumptions C01_decimal_negative_dash.
+
+(* reconstruct_binary inverts deconstruct_binary: any depth, any width *)
+Theorem C01_reconstruct : forall v, wf_data v = true ->
+  recon (fst (decon v [])) (map PBytes (snd (decon v []))) = Ok v.
+Proof. exact recon_decon_wf. Qed.
+Print Assumptions C01_reconstruct.
+
+Theorem C01_reconstruct_at_offset : forall v, ph_free v = true -> forall pre post,
+  recon (subst v (List.length pre)) (pre ++ map PBytes (leaves v) ++ post) = Ok v.
+Proof. exact recon_subst. Qed.
+Print Assumptions C01_reconstruct_at_offset.
+
+(* the first character of the JSON text of a non-number is not a digit, '-' or '/' *)
+Theorem C01_json_first_char : forall v s, json_dumps v = Ok s -> not_number v ->
+  exists x b, s = x :: b /\ is_digit x = false /\ x <> 45%N /\ x <> 47%N.
+Proof. exact json_dumps_first. Qed.
+Print Assumptions C01_json_first_char.
+
+(* round trip, json.loads an oracle assumed to invert json.dumps on jsonable values *)
+Theorem C01_roundtrip_partial : forall loads : str -> Res pv,
+  (forall v s, jsonable v = true -> json_dumps v = Ok s -> loads s = Ok v) ->
+  forall t data ns id p f atts,
+  wf_input t data ns id = true -> floats_ok data = true ->
+  ctor true t data ns id None = Ok p ->
+  encode p = Ok (f, atts) ->
+  (N.of_nat (List.length (atts_of atts)) < 10000000000)%N ->
+  exists r r' flags,
+    decode loads (PStr f) = Ok r /\
+    rcount r = N.of_nat (List.length (atts_of atts)) /\
+    add_all r (map PBytes (atts_of atts)) = Ok (r', flags) /\
+    flags = last_only (List.length (atts_of atts)) /\
+    rt_ok t data ns id None (map PBytes (atts_of atts)) (Ok (rp r', rcount r, flags)) = true.
+Proof. exact roundtrip_partial. Qed.
+Print Assumptions C01_roundtrip_partial.
+
+(* the same with the oracle assumed correct only on the one JSON text of this packet *)
+Theorem C01_roundtrip_pointwise_partial : forall loads t data ns id p f atts,
+  wf_input t data ns id = true ->
+  ctor true t data ns id None = Ok p ->
+  encode p = Ok (f, atts) ->
+  (N.of_nat (List.length (atts_of atts)) < 10000000000)%N ->
+  (forall s, json_dumps (subst data 0) = Ok s -> loads s = Ok (subst data 0)) ->
+  exists r r' flags,
+    decode loads (PStr f) = Ok r /\
+    rcount r = N.of_nat (List.length (atts_of atts)) /\
+    add_all r (map PBytes (atts_of atts)) = Ok (r', flags) /\
+    flags = last_only (List.length (atts_of atts)) /\
+    rt_ok t data ns id None (map PBytes (atts_of atts)) (Ok (rp r', rcount r, flags)) = true.
+Proof. exact roundtrip_pointwise. Qed.
+Print Assumptions C01_roundtrip_pointwise_partial.
+
+(* constructor and encoder succeed on the whole domain *)
+Theorem C01_encode_total : forall t data ns id,
+  wf_input t data ns id = true ->
+  (has_bytes data = true -> (t = 2 \/ t = 3)%Z) ->
+  exists p f atts, ctor true t data ns id None = Ok p /\ encode p = Ok (f, atts) /\
+                   atts_of atts = leaves data.
+Proof. exact encode_total. Qed.
+Print Assumptions C01_encode_total.
+
+(* round trip without assuming that encoding succeeded *)
+Theorem C01_roundtrip_total_pointwise_partial : forall loads t data ns id,
+  wf_input t data ns id = true ->
+  (has_bytes data = true -> (t = 2 \/ t = 3)%Z) ->
+  (N.of_nat (List.length (leaves data)) < 10000000000)%N ->
+  (forall s, json_dumps (subst data 0) = Ok s -> loads s = Ok (subst data 0)) ->
+  exists p f atts, ctor true t data ns id None = Ok p /\ encode p = Ok (f, atts) /\
+                   atts_of atts = leaves data /\
+  exists r r' flags,
+    decode loads (PStr f) = Ok r /\
+    rcount r = N.of_nat (List.length (leaves data)) /\
+    add_all r (map PBytes (leaves data)) = Ok (r', flags) /\
+    flags = last_only (List.length (leaves data)) /\
+    rt_ok t data ns id None (map PBytes (leaves data)) (Ok (rp r', rcount r, flags)) = true.
+Proof. exact roundtrip_total_pointwise. Qed.
+Print Assumptions C01_roundtrip_total_pointwise_partial.
+
+(* what rt_ok = true means *)
+Theorem C01_rt_ok_sound : forall t data ns id binary atts obs,
+  wf_input t data ns id = true ->
+  rt_ok t data ns id binary atts obs = true ->
+  match obs with
+  | Ok (q, n, flags) =>
+      ptype q = PInt (promoted t data binary) /\ norm_ns (pns q) = norm_ns ns /\
+      pid q = id /\ pdata q = data /\ n = N.of_nat (List.length atts) /\
+      flags = last_only (List.length atts) /\ atts = map PBytes (leaves data)
+  | Err _ => False
+  end.
+Proof. exact rt_ok_sound. Qed.
+Print Assumptions C01_rt_ok_sound.
+
+Theorem C01_enc_ok_sound : forall t data ns id obs,
+  wf_input t data ns id = true ->
+  enc_ok t data ns id None obs = true ->
+  if has_bytes data && negb ((t =? 2)%Z || (t =? 3)%Z)
+  then obs = Err ValueError
+  else obs = spec_encode (mkPacket (PInt (promoted t data None)) ns id data).
+Proof. exact enc_ok_sound. Qed.
+Print Assumptions C01_enc_ok_sound.
+
+Theorem C01_model_enc_ok : forall t data ns id,
+  enc_ok t data ns id None (model_enc t data ns id None) = true.
+Proof. exact model_enc_ok. Qed.
+Print Assumptions C01_model_enc_ok.
+
+(* interop with the specification-derived codec *)
+Theorem C01_interop_spec_decode : forall loads : str -> Res pv,
+  (forall v s, jsonable v = true -> json_dumps v = Ok s -> loads s = Ok v) ->
+  forall t data ns id p f atts,
+  wf_input t data ns id = true -> floats_ok data = true ->
+  ctor true t data ns id None = Ok p ->
+  encode p = Ok (f, atts) ->
+  (N.of_nat (List.length (atts_of atts)) < 10000000000)%N ->
+  spec_decode loads f =
+  Ok (mkSpec (promoted t data None) (sns_of ns) id (subst data 0) (N.of_nat (List.length (atts_of atts)))).
+Proof. exact interop_spec_decode. Qed.
+Print Assumptions C01_interop_spec_decode.
+
+Theorem C01_interop_spec_encode : forall loads : str -> Res pv,
+  (forall v s, jsonable v = true -> json_dumps v = Ok s -> loads s = Ok v) ->
+  forall t data ns id p f atts,
+  wf_input t data ns id = true -> floats_ok data = true ->
+  ctor true t data ns id None = Ok p ->
+  spec_encode p = Ok (f, atts) ->
+  (N.of_nat (List.length (atts_of atts)) < 10000000000)%N ->
+  exists r r' flags,
+    decode loads (PStr f) = Ok r /\
+    rcount r = N.of_nat (List.length (atts_of atts)) /\
+    add_all r (map PBytes (atts_of atts)) = Ok (r', flags) /\
+    flags = last_only (List.length (atts_of atts)) /\
+    rt_ok t data ns id None (map PBytes (atts_of atts)) (Ok (rp r', rcount r, flags)) = true.
+Proof. exact interop_spec_encode. Qed.
+Print Assumptions C01_interop_spec_encode.
+
+(* domain boundary: a top-level number is read back as an id, by both decoders *)
+Theorem C01_number_payload_refuted : forall loads,
+  exists p, ctor true CONNECT_ERROR (PInt 5) None None None = Ok p /\
+            encode p = Ok (s2l "45", None) /\
+            decode_str loads (s2l "45") = Ok (mkR (mkPacket (PInt 4) None (Some 5%Z) PNone) 0%N []) /\
+            spec_decode loads (s2l "45") = Ok (mkSpec 4 (s2l "/") (Some 5%Z) PNone 0%N).
+Proof. exact number_payload_refuted. Qed.
+Print Assumptions C01_number_payload_refuted.
